@@ -308,6 +308,9 @@ CHECKS["C15"] = {
                "+ model-based differential testing with sanitizers; leak attribution by allocation call-site signature",
 }
 CHECKS["C15"].setdefault("design_ref", "DESIGN.md §6 C15, notes/NOTES-C15.md")
+CHECKS["C15"]["text"] += (" Added after the seeded-mutation round: assign-then-read families (a library-owned variable changed through "
+                          "bloc_assign_* and then only read by scripts keeps value and type) and failing FUNCTION declarations in the "
+                          "rejected-text catalog (no function is left behind, also right after a successful redefinition).")
 
 CHECKS["C16"] = {
   "category": "proof",
@@ -343,6 +346,16 @@ CHECKS["C11"] = dict(
           "through the final dump (one trailing registration is reconstructed); function identity = Functor address within a case."),
     technique="proof + trace-refinement correspondence (model-explained snapshots) + differential twin runs",
 )
+
+CHECKS["C16"]["text"] += (" Added after the seeded-mutation round: the default constructor name() (separate early-return path of the "
+                          "parser), a module granted twice, and a final phase of EVERY history in which the host clears the permissions "
+                          "and a brand-new untrusted context attempts the constructor (must be refused whatever happened before).")
+CHECKS["C17"]["text"] += (" Added after the seeded-mutation round, evaluated directly on the verification modules' event log: method calls "
+                          "compiled for one module whose run-time receiver belongs to the other module (5 program shapes x 4 methods x both "
+                          "directions) and one object referenced by 65535..70000 table elements (counter width).")
+CHECKS["C19"]["text"] += (" Added after the seeded-mutation round: programs whose source lines are 1000..3100 bytes long (string literals across "
+                          "the reader's 1023-byte pieces) through file, stdin and CRLF form.")
+CHECKS["C18"]["text"] += " utf8: inserting an object into itself (the plugin hands the receiver's own storage) is compared with inserting an equal copy."
 
 NOT_YET = {}
 for _k, _c in CHECKS.items():
